@@ -28,6 +28,11 @@ P = {
    "Static analysis. For all 40 strategy types: len(actions) = max(n, warm-up) (so exactly n beyond the warm-up and never fewer than n), anchor exactly 0, the final prefix is strategy.Hold and covers every element computed from another Shift's fill value, for ALL admissible configurations and n >= 0; compounds/decorators against the Strategy contract; every registry entry's type was analysed; Action values originate only from the three constants.",
    "Trusts go/types, the Strategy interface contract for wrapped strategies, sub-indicator contracts, Γ, Fourier–Motzkin. Alligator and SMMA strategies emit n+1 actions one day late (pinned by their tests): known findings.",
    "§4 C05"),
+ "C06": (True,
+   "value-term extraction over the stage graph (snapshot field projections, sub-indicators as uninterpreted operators, stateless closures inlined) + role typing of indicator arguments + anchor alignment of decision operands + semantic comparison of decision closures with a documented-rule table on all strict sign vectors",
+   "Static analysis. For each of the 32 base strategies: every argument bound to a role-named parameter of an indicator's Compute is exactly that snapshot field (the role is read from the field the extractor's closure returns); the operands of every decision zip refer to the same snapshot position (two tabled cross-over detectors excepted); the decision closure equals the documented rule as a function of the signs of the compared quantities, evaluated on every strict sign vector — branch order and equivalent rewrites do not matter, a flipped comparison, another threshold field, another indicator output or price field does. Equality positions are exempt as in the property. The numerical correctness of the indicators is C01's concern; TripleRsi's ring-based rule is only role- and alignment-checked.",
+   "Trusts go/types, the decision-rule table (from the doc comments; where a comment only says 'crossing' the level test the library uses is the documented reading), the role vocabulary of parameter names, internal/sym. CciStrategy feeds High to all three inputs (pinned by its CSV): known finding.",
+   "§4 C06"),
  "C07": (True,
    "decision-table extraction (symbolic execution of loop-free decision closures into guarded commands) evaluated exhaustively on the finite abstract domains their atoms induce and compared with the documented tables",
    "Static analysis, exhaustive on finite domains: Inverse, Split and the MACD-RSI combiner point by point over {Sell,Hold,Buy}; And/Or/Majority on every tally with buy+hold+sell=k, k<=6 (realises every consistent weak ordering of the compared quantities); CountActions takes one action per source and increments exactly the matching counter; every source is denormalised; No-Loss and Stop-Loss as transducers over action x {not invested, invested} x ordering(level, close), outputs and level updates compared with the specification transducer, from which the safety statements follow for all histories. Semantic comparison: branch order and if/switch style do not matter. Wrapped strategies' behaviour and float rounding are not decided.",
